@@ -62,6 +62,31 @@ func StartAcceptor(buf int, writeTimeout time.Duration, onClient func(h simplefi
 	return r
 }
 
+// setupFactory is an application's own HandlerFactory: it makes the library's acceptor handler and
+// sets it up (subscribers, session) itself, so that the acceptor needs no new-client callback.
+type setupFactory struct {
+	inner simplefixgo.HandlerFactory
+	setup func(h simplefixgo.AcceptorHandler)
+}
+
+func (f setupFactory) MakeHandler(ctx context.Context) simplefixgo.AcceptorHandler {
+	h := f.inner.MakeHandler(ctx)
+	f.setup(h)
+	return h
+}
+
+// StartAcceptorNoCallback is StartAcceptor for an application that passes NO new-client callback
+// (nil) and does its per-connection set-up in its own handler factory instead.
+func StartAcceptorNoCallback(buf int, writeTimeout time.Duration, setup func(h simplefixgo.AcceptorHandler)) *AcceptorRig {
+	r := &AcceptorRig{L: netsim.NewListener(), Done: make(chan struct{})}
+	r.A = simplefixgo.NewAcceptor(r.L, setupFactory{simplefixgo.NewAcceptorHandlerFactory(TagMsgType, buf), setup}, writeTimeout, nil)
+	go func() {
+		defer close(r.Done)
+		r.Err = r.A.ListenAndServe()
+	}()
+	return r
+}
+
 // Returned reports whether ListenAndServe has returned.
 func (r *AcceptorRig) Returned() bool {
 	select {
@@ -74,16 +99,20 @@ func (r *AcceptorRig) Returned() bool {
 
 // InitiatorRig is a real Initiator over a scripted connection.
 type InitiatorRig struct {
-	C    *netsim.Conn
-	H    *simplefixgo.DefaultHandler
-	I    *simplefixgo.Initiator
-	Done chan struct{}
-	Err  error
+	Cancel context.CancelFunc // cancels the context the handler was made from
+	C      *netsim.Conn
+	H      *simplefixgo.DefaultHandler
+	I      *simplefixgo.Initiator
+	Done   chan struct{}
+	Err    error
 }
 
 func NewInitiatorRig(buf int, writeDeadline time.Duration) *InitiatorRig {
 	r := &InitiatorRig{C: netsim.NewConn("init"), Done: make(chan struct{})}
-	r.H = simplefixgo.NewInitiatorHandler(context.Background(), TagMsgType, buf)
+	// the application's own cancellable context: cancelling it is one way to end the client
+	ctx, cancel := context.WithCancel(context.Background())
+	r.Cancel = cancel
+	r.H = simplefixgo.NewInitiatorHandler(ctx, TagMsgType, buf)
 	r.I = simplefixgo.NewInitiator(r.C, r.H, buf, writeDeadline)
 	return r
 }
